@@ -158,7 +158,7 @@ Print Assumptions C05_src_run_log.
     k = nb + 2 on, with burn_in = (k <= nb). *)
 Theorem C05_src_run_schedule : forall (e : env) (nb : Z) (p : Q) (s : nat -> R),
   exists log,
-    src_log nb p s (unfold e fit_prog) = Some log /\ length log = e_niter e /\
+    src_log nb p s (unfold e fit_prog) = Some log /\ List.length log = e_niter e /\
     forall k, 1 <= k <= e_niter e ->
       exists r, nth_error log (k - 1) = Some r
         /\ m_iter r = k
